@@ -50,6 +50,8 @@ class Choice:
         return self.options[0]
 
     def g(self, option):
+        if option not in self.options:
+            return False
         return self.sel[self.options.index(option)]
 
 
